@@ -118,7 +118,7 @@ func NewComponents(spec specification.Components, cfg Config) (zero Components, 
 						oName += Title(ss)
 					}
 				}
-				if raw != "" && strings.HasSuffix(raw, "/") {
+				if len(raw) > 1 && strings.HasSuffix(raw, "/") {
 					oName += "RT"
 				}
 			}
